@@ -163,6 +163,20 @@ Theorem length_guard_as_in_source : forall off len slen,
 Proof. exact invalid_length_meaning. Qed.
 Print Assumptions length_guard_as_in_source.
 
+(* the two length loops of the encoder, as they stand in asn1/marshal.go today (translated on every run as
+   fuelled while-loops): for every machine integer they return the number of octets the model's emitters
+   write, and the translation's fuel never runs out (the out-of-fuel value -1 is excluded by the bounds) *)
+Theorem length_octets_as_in_source : forall i,
+  0 <= i <= max_i64 -> length_length_gen i = zlen (len_bytes 8 i) /\ 1 <= length_length_gen i <= 8.
+Proof. exact length_length_meaning. Qed.
+Print Assumptions length_octets_as_in_source.
+
+Theorem base128_octets_as_in_source : forall n,
+  min_i64 <= n <= max_i64 ->
+  base128_int_length_gen n = zlen (append_base128 n) /\ 0 <= base128_int_length_gen n <= 10.
+Proof. exact base128_int_length_meaning. Qed.
+Print Assumptions base128_octets_as_in_source.
+
 (* no input makes either decoder panic or loop, for any type, any parameters (the target is a
    non-nil pointer: D5 is a property of the target, outside the quantifier) *)
 Theorem no_panic : forall v t toks d, unmarshal v t toks d <> Panic /\ unmarshal v t toks d <> Hang.
